@@ -111,7 +111,7 @@ def run(res):
     res.coverage.update({
         "evaluations": 2 * len(sizes) + len(wl) + len(ul) + nmal,
         "distinct_nontrivial": len(set(sizes)),
-        "rule": "every payload size in the tier's size set, each with pseudo-random content before the CRC, with and without 0xB5: wrap, header check, parse back, JSON and bytes compared; distinct sizes counted. quick: 24..1100, +-2 around every multiple of 256, the last 40 sizes below the limit, 300 random; thorough: every size 24..65800",
+        "rule": "every payload size in the tier's size set, each with pseudo-random content before the CRC (every third size with planted 00 00 03 0k / 00 00 0k / 00 00 00 runs: plain payload in the AV1 container), with and without 0xB5: wrap, header check, parse back, JSON and bytes compared; distinct sizes counted. quick: 24..1100, +-2 around every multiple of 256, the last 40 sizes below the limit, 300 random; thorough: every size 24..65800",
         "exhaustive": res.tier == "thorough",
         "sizes_checked": len(sizes),
         "sizes_ok_impl_runs": okc,
